@@ -8,6 +8,7 @@ BIN = os.path.join(BUILD, "bin")
 LEAN = os.path.join(VERIF, "lean")
 QH = os.path.join(BIN, "qh")
 EXTRACT = os.path.join(BIN, "extract")
+GOTOLEAN = os.path.join(BIN, "gotolean")
 QMODEL = os.path.join(LEAN, ".lake", "build", "bin", "qmodel")
 GOENV = dict(os.environ, GOFLAGS="-mod=mod", GOPROXY="off", GOSUMDB="off", GOTOOLCHAIN="local",
              CGO_ENABLED=os.environ.get("CGO_ENABLED", "0"))
@@ -107,6 +108,19 @@ def build_all(ctx, lake_targets=None):
             ctx.facts = json.load(open(facts_json))
         except Exception:
             ctx.facts = {}
+        # the translator: internal/csm + quartz/csm.go -> Generated/Trans.lean (definitions regenerated from the source; the TransCsm /
+        # TransMachine theorems say they equal the hand-written model). A function it cannot translate is listed in `Generated.Trans.missing`
+        # (theorem `Trans.missing_none` then fails); a translator crash leaves a file that does not compile: both are broken obligations.
+        trans_json = os.path.join(BUILD, "trans.json")
+        rc, out = sh([GOTOLEAN, "-repo", REPO, "-out", os.path.join(LEAN, "QuartzModel/Generated/Trans.lean"), "-json", trans_json], timeout=300)
+        if rc != 0:
+            ctx.log("gotolean failed (rc=%d): %s" % (rc, out.strip()[-800:]))
+            open(os.path.join(LEAN, "QuartzModel/Generated/Trans.lean"), "w").write(
+                "/- gotolean failed on the current source -/\nnamespace Generated.Trans\ndef missing : List String := [\"translator-failed\"]\nend Generated.Trans\n")
+        try:
+            ctx.facts["translated"] = json.load(open(trans_json))
+        except Exception:
+            pass
         t = time.time()
         rc, out = sh(["lake", "build"] + (lake_targets or []), cwd=LEAN, timeout=3000)
         ctx.lean_ok = rc == 0
